@@ -115,6 +115,7 @@ class EngineBase:
         self.in_old = 0
         self.full_prune = bool(os.environ.get('VERIF_FULL_PRUNE'))
         self.snapshot_idx = {}
+        self.sorted_info = {}
         self.pid = None          # property being checked: clauses tagged for other properties are skipped
 
     def clauses(self, lst):
